@@ -69,7 +69,7 @@ theorem get_num_cells_eq (r : Int) : Src.cell_info.get_num_cells r = .ok ((getNu
 theorem get_num_children_eq (p c : Int) :
     Src.cell_info.get_num_children p c = .ok ((getNumChildren p c : Nat) : Int) := by
   unfold Src.cell_info.get_num_children getNumChildren
-  have hc : Src.cell_info.FIRST_HILBERT_RESOLUTION = CIFHR := by decide
+  have hc : CIFHR = 2 := by decide
   rw [hc]
   split
   · rfl
@@ -91,11 +91,11 @@ theorem get_num_children_eq (p c : Int) :
 
 theorem get_stride_eq (r : Int) : Src.serialization.get_stride r = (getStride r).map Int.ofNat := by
   unfold Src.serialization.get_stride getStride
-  have h1 : Src.serialization.HILBERT_START_BIT = HSB := by decide
-  have h2 : Src.serialization.MAX_RESOLUTION = MAXR := by decide
+  have h1 : HSB = 58 := by decide
+  have h2 : MAXR = 30 := by decide
   rw [h1, h2]
   split
-  · exact shl_nat 1 HSB
+  · exact shl_nat 1 (58 : Int)
   · exact shl_nat 1 _
 
 
@@ -106,7 +106,7 @@ theorem get_resolution_loop_eq (fuel : Nat) (res : Int) (sh : Nat) (hf : res + 2
   | zero => omega
   | succ f ih =>
     unfold Src.serialization.get_resolution_loop1 getResLoop
-    have hc : Src.serialization.FIRST_HILBERT_RESOLUTION = FHR := by decide
+    have hc : FHR = 2 := by decide
     rw [hc]
     have hb : (Py.band (sh : Int) 1 = 0) ↔ (sh &&& 1 = 0) := by
       rw [show (1 : Int) = ((1 : Nat) : Int) from rfl, band_nat]; omega
@@ -115,7 +115,7 @@ theorem get_resolution_loop_eq (fuel : Nat) (res : Int) (sh : Nat) (hf : res + 2
       rw [if_pos hcond, if_pos hcond']
       dsimp only
       rw [shr_nonneg _ _ (by split <;> omega), bind_ok]
-      have hk : (if res - 1 < FHR then (1 : Int) else 2).toNat = (if res - 1 < FHR then 1 else 2 : Nat) := by
+      have hk : (if res - 1 < (2 : Int) then (1 : Int) else 2).toNat = (if res - 1 < (2 : Int) then 1 else 2 : Nat) := by
         split <;> rfl
       rw [hk]
       exact ih (res - 1) _ (by omega) (by omega)
@@ -126,11 +126,11 @@ theorem get_resolution_loop_eq (fuel : Nat) (res : Int) (sh : Nat) (hf : res + 2
 theorem get_resolution_eq (index : Nat) :
     Src.serialization.get_resolution (index : Int) = .ok (getResolution index) := by
   unfold Src.serialization.get_resolution getResolution
-  have h2 : Src.serialization.MAX_RESOLUTION = MAXR := by decide
+  have h2 : MAXR = 30 := by decide
   rw [h2]
   dsimp only
   rw [shr_nonneg _ _ (by omega), bind_ok]
-  obtain ⟨sh', h⟩ := get_resolution_loop_eq (MAXR + 2).toNat (MAXR - 1) (index >>> 1) (by simp) (by simp)
+  obtain ⟨sh', h⟩ := get_resolution_loop_eq ((30 : Int) + 2).toNat ((30 : Int) - 1) (index >>> 1) (by simp) (by simp)
   rw [show (1 : Int).toNat = 1 from rfl, h, bind_ok]
   exact congrArg Except.ok (getResLoop_fuel _ _ _ _ (by simp) (by simp))
 
@@ -159,9 +159,9 @@ theorem originId_nat (o : Nat) (h : o < 12) : Py.originId (o : Int) = (o : Int) 
 theorem deserialize_eq (index : Nat) :
     Src.serialization.deserialize (index : Int) = (deserialize index).map cellOf := by
   unfold Src.serialization.deserialize deserialize
-  have h1 : Src.serialization.FIRST_HILBERT_RESOLUTION = FHR := by decide
-  have h2 : Src.serialization.HILBERT_START_BIT = HSB := by decide
-  have h3 : Src.serialization.REMOVAL_MASK = ((A5.REMOVAL_MASK : Nat) : Int) := by decide
+  have h1 : FHR = 2 := by decide
+  have h2 : HSB = 58 := by decide
+  have h3 : (288230376151711743 : Int) = ((A5.REMOVAL_MASK : Nat) : Int) := by decide
   rw [h1, h2, h3, get_resolution_eq, bind_ok]
   dsimp only
   by_cases hw : getResolution index = -1
@@ -193,11 +193,11 @@ theorem deserialize_eq (index : Nat) :
         have hseg : (↑t + Py.firstQuintant (Int.ofNat o)).fmod 5 = (↑t + firstQuintant o) % 5 := by
           rw [show Int.ofNat o = (o : Int) from rfl, firstQuintant_nat, Int.fmod_eq_emod_of_nonneg _ (by omega)]
         rw [hseg]
-        by_cases hlt : r < FHR
+        by_cases hlt : r < (2 : Int)
         · rw [if_pos hlt, if_pos hlt]; rfl
         · rw [if_neg hlt, if_neg hlt]
           rw [shr_nat]
-          cases shr (index &&& REMOVAL_MASK) (HSB - 2 * (r - FHR + 1)) <;> rfl
+          cases shr (index &&& REMOVAL_MASK) ((58 : Int) - 2 * (r - (2 : Int) + 1)) <;> rfl
 
 
 theorem serialize_eq (c : Cell) (ho : c.origin < 12) :
@@ -205,13 +205,13 @@ theorem serialize_eq (c : Cell) (ho : c.origin < 12) :
   obtain ⟨o, seg, S, r⟩ := c
   simp only at ho
   unfold Src.serialization.serialize serialize cellOf
-  have h1 : Src.serialization.FIRST_HILBERT_RESOLUTION = FHR := by decide
-  have h2 : Src.serialization.HILBERT_START_BIT = HSB := by decide
-  have h3 : Src.serialization.MAX_RESOLUTION = MAXR := by decide
-  have h4 : Src.serialization.WORLD_CELL = ((A5.WORLD_CELL : Nat) : Int) := by decide
+  have h1 : FHR = 2 := by decide
+  have h2 : HSB = 58 := by decide
+  have h3 : MAXR = 30 := by decide
+  have h4 : A5.WORLD_CELL = 0 := by decide
   rw [h1, h2, h3, h4]
   dsimp only
-  by_cases c1 : r > MAXR
+  by_cases c1 : r > (30 : Int)
   · rw [if_pos c1, if_pos c1]; rfl
   rw [if_neg c1, if_neg c1]
   by_cases c2 : r = -1
@@ -220,15 +220,15 @@ theorem serialize_eq (c : Cell) (ho : c.origin < 12) :
   by_cases c3 : S < 0
   · rw [if_pos c3, if_pos c3]; rfl
   rw [if_neg c3, if_neg c3]
-  by_cases c4 : r < FHR ∧ S ≠ 0
+  by_cases c4 : r < (2 : Int) ∧ S ≠ 0
   · rw [if_pos c4, if_pos c4]; rfl
   rw [if_neg c4, if_neg c4]
   obtain ⟨s, rfl⟩ : ∃ s : Nat, S = (s : Int) := ⟨S.toNat, by omega⟩
   -- R
-  have hR : (if r < FHR then (pure (r + 1) : PyM Int) else pure (2 * (1 + r - FHR) + 1))
-      = pure (if r < FHR then r + 1 else 2 * (1 + r - FHR) + 1) := by split <;> rfl
+  have hR : (if r < (2 : Int) then (pure (r + 1) : PyM Int) else pure (2 * (1 + r - (2 : Int)) + 1))
+      = pure (if r < (2 : Int) then r + 1 else 2 * (1 + r - (2 : Int)) + 1) := by split <;> rfl
   rw [hR, pure_ok, bind_ok]
-  generalize (if r < FHR then r + 1 else 2 * (1 + r - FHR) + 1) = R
+  generalize (if r < (2 : Int) then r + 1 else 2 * (1 + r - (2 : Int)) + 1) = R
   -- segment_n
   have hfq := firstQuintant_range o ho
   have hseg : (seg - Py.firstQuintant (o : Int) + 5).fmod 5 = (((seg - firstQuintant o + 5) % 5).toNat : Int) := by
@@ -247,19 +247,19 @@ theorem serialize_eq (c : Cell) (ho : c.origin < 12) :
   | error e => rfl
   | ok i0 =>
     rw [map_ok, bind_ok, bind_ok]
-    have hi1 : (if r ≥ FHR then
-            (Py.shl 1 (2 * (r - FHR + 1)) >>= fun t3_ =>
+    have hi1 : (if r ≥ (2 : Int) then
+            (Py.shl 1 (2 * (r - (2 : Int) + 1)) >>= fun t3_ =>
               if (s : Int) ≥ t3_ then (Except.error Err.value : PyM Int)
-              else Py.shl (s : Int) (HSB - 2 * (r - FHR + 1)) >>= fun t4_ => pure (Int.ofNat i0 + t4_))
+              else Py.shl (s : Int) ((58 : Int) - 2 * (r - (2 : Int) + 1)) >>= fun t4_ => pure (Int.ofNat i0 + t4_))
           else pure (Int.ofNat i0))
-        = ((if r ≥ FHR then
-            Except.bind (shl 1 (2 * (r - FHR + 1))) fun lim =>
+        = ((if r ≥ (2 : Int) then
+            Except.bind (shl 1 (2 * (r - (2 : Int) + 1))) fun lim =>
               if (s : Int) ≥ (lim : Int) then Except.error Err.value
-              else Except.bind (shl (s : Int).toNat (HSB - 2 * (r - FHR + 1))) fun add => Except.ok (i0 + add)
+              else Except.bind (shl (s : Int).toNat ((58 : Int) - 2 * (r - (2 : Int) + 1))) fun add => Except.ok (i0 + add)
           else Except.ok i0).map Int.ofNat : PyM Int) := by
       split
       · rw [shl_one]
-        cases shl 1 (2 * (r - FHR + 1)) with
+        cases shl 1 (2 * (r - (2 : Int) + 1)) with
         | error e => rfl
         | ok lim =>
           rw [map_ok, bind_ok]
@@ -268,18 +268,18 @@ theorem serialize_eq (c : Cell) (ho : c.origin < 12) :
           by_cases hl : (s : Int) ≥ (lim : Int)
           · rw [if_pos hl, if_pos hl]; rfl
           · rw [if_neg hl, if_neg hl, shl_nat, Int.toNat_natCast]
-            cases shl s (HSB - 2 * (r - FHR + 1)) <;> rfl
+            cases shl s ((58 : Int) - 2 * (r - (2 : Int) + 1)) <;> rfl
       · rfl
     rw [hi1]
-    cases (if r ≥ FHR then
-            Except.bind (shl 1 (2 * (r - FHR + 1))) fun lim =>
+    cases (if r ≥ (2 : Int) then
+            Except.bind (shl 1 (2 * (r - (2 : Int) + 1))) fun lim =>
               if (s : Int) ≥ (lim : Int) then Except.error Err.value
-              else Except.bind (shl (s : Int).toNat (HSB - 2 * (r - FHR + 1))) fun add => Except.ok (i0 + add)
+              else Except.bind (shl (s : Int).toNat ((58 : Int) - 2 * (r - (2 : Int) + 1))) fun add => Except.ok (i0 + add)
           else Except.ok i0) with
     | error e => rfl
     | ok i1 =>
       rw [map_ok, bind_ok, bind_ok, shl_one]
-      cases shl 1 (HSB - R) with
+      cases shl 1 ((58 : Int) - R) with
       | error e => rfl
       | ok m =>
         rw [map_ok, bind_ok, bind_ok]
@@ -326,7 +326,7 @@ theorem deserialize_origin_lt {index : Nat} {c : Cell} (h : deserialize index = 
 theorem cell_to_parent_eq (index : Nat) (pr : Option Int) :
     Src.serialization.cell_to_parent (index : Int) pr = (cellToParent index pr).map Int.ofNat := by
   unfold Src.serialization.cell_to_parent cellToParent
-  have h4 : Src.serialization.WORLD_CELL = ((A5.WORLD_CELL : Nat) : Int) := by decide
+  have h4 : A5.WORLD_CELL = 0 := by decide
   rw [deserialize_eq, h4]
   cases hd : deserialize index with
   | error e => rfl
@@ -385,20 +385,20 @@ theorem shl_three (n : Int) : Py.shl 3 n = (shl 3 n).map Int.ofNat := shl_nat 3 
 theorem is_first_child_eq (index : Nat) (res : Option Int) :
     Src.serialization.is_first_child (index : Int) res = isFirstChild index res := by
   unfold Src.serialization.is_first_child isFirstChild
-  have h2 : Src.serialization.HILBERT_START_BIT = HSB := by decide
-  have h3 : Src.serialization.MAX_RESOLUTION = MAXR := by decide
+  have h2 : HSB = 58 := by decide
+  have h3 : MAXR = 30 := by decide
   rw [h2, h3]
   have key : ∀ r : Int,
       (if r < 2 then
-          Py.shr (index : Int) HSB >>= fun t2_ =>
+          Py.shr (index : Int) (58 : Int) >>= fun t2_ =>
             Py.mod t2_ (if r = 0 then 12 else 5) >>= fun t3_ => (pure (Py.ofProp (t3_ = 0)) : PyM Bool)
-        else Py.shl 3 (2 * (MAXR - r)) >>= fun t4_ => pure (Py.ofProp (Py.band (index : Int) t4_ = 0)))
-      = (if r < 2 then (shr index HSB).bind fun top6 => .ok (top6 % (if r = 0 then 12 else 5) == 0)
-         else (shl 3 (2 * (MAXR - r))).bind fun mask => .ok (index &&& mask == 0)) := by
+        else Py.shl 3 (2 * ((30 : Int) - r)) >>= fun t4_ => pure (Py.ofProp (Py.band (index : Int) t4_ = 0)))
+      = (if r < 2 then (shr index (58 : Int)).bind fun top6 => .ok (top6 % (if r = 0 then 12 else 5) == 0)
+         else (shl 3 (2 * ((30 : Int) - r))).bind fun mask => .ok (index &&& mask == 0)) := by
     intro r
     split
     · rw [shr_nat]
-      cases shr index HSB with
+      cases shr index (58 : Int) with
       | error e => rfl
       | ok t =>
         rw [map_ok, bind_ok]
@@ -412,7 +412,7 @@ theorem is_first_child_eq (index : Nat) (res : Option Int) :
         congr 1
         exact decide_cast_zero _
     · rw [shl_three]
-      cases shl 3 (2 * (MAXR - r)) with
+      cases shl 3 (2 * ((30 : Int) - r)) with
       | error e => rfl
       | ok m =>
         rw [map_ok, bind_ok, pure_ok]
@@ -430,13 +430,13 @@ theorem is_first_child_eq (index : Nat) (res : Option Int) :
 theorem hierarchical_key_eq (cell : Nat) :
     Src.compact._hierarchical_key (cell : Int) = .ok ((hierarchicalKey cell : Nat) : Int) := by
   unfold Src.compact._hierarchical_key hierarchicalKey
-  have h2 : Src.compact.HILBERT_START_BIT = HSB := by decide
+  have h2 : HSB = 58 := by decide
   rw [h2]
   show (Src.serialization.get_resolution (cell : Int) >>= _) = _
   rw [get_resolution_eq, bind_ok]
   split
   · rw [shr_nonneg _ _ (by decide), bind_ok,
-      show (4 : Int) * ((cell >>> HSB.toNat : Nat) : Int) = ((4 * (cell >>> HSB.toNat) : Nat) : Int) by push_cast; rfl,
+      show (4 : Int) * ((cell >>> (58 : Int).toNat : Nat) : Int) = ((4 * (cell >>> (58 : Int).toNat) : Nat) : Int) by push_cast; rfl,
       shl_nonneg _ _ (by decide), bind_ok, pure_ok]
     congr 1
   · rfl
